@@ -23,7 +23,8 @@ C0(m)          == Call(m, 0, Bot, Bot, <<>>, <<>>)
 C1(m, n)       == Call(m, n, Bot, Bot, <<>>, <<>>)
 CT(m, n, a, b) == Call(m, n, a, b, <<>>, <<>>)
 
-GInit(claims) == [stack |-> <<>>, memory |-> <<>>, claims |-> claims, phase |-> "gamma", syms |-> <<>>]
+GInit(claims) == [stack |-> <<>>, memory |-> <<>>, claims |-> claims, phase |-> "gamma", syms |-> <<>>, rt |-> <<>>]
+\* rt[k] = TRUE: tracker stack slot k holds a published term the machine has already consumed (PyPublishKeepsTop)
 
 EqT(x, y) == Expand(x) = Expand(y)
 EqE(x, y) == x.k = y.k /\ EqT(x.p, y.p)
@@ -39,7 +40,8 @@ GStep(g, c) ==
       Has(k) == n > k
       Ok(s, bs) == [ok |-> TRUE, g |-> s, bytes |-> bs]
       Rej == [ok |-> FALSE, g |-> g, bytes |-> <<>>]
-      PopPush(m, e) == [g EXCEPT !.stack = Append(SubSeq(S, 1, n - m), e)]
+      PopPush(m, e) == [g EXCEPT !.stack = Append(SubSeq(S, 1, n - m), e), !.rt = Append(SubSeq(g.rt, 1, n - m), FALSE)]
+      Retain(s) == [s EXCEPT !.rt = [g.rt EXCEPT ![n] = TRUE]]
       m == c.m
       \* stack[-(len(d)+1) .. -2] must be the delta values in order
       PlugsOK == LET q == Len(c.d) IN
@@ -85,20 +87,20 @@ GStep(g, c) ==
     [] m = "instantiate_pattern" ->
          IF Has(0) /\ EqE(E(0), Pat(c.a)) /\ DistinctKeys(c.d) /\ (Len(c.d) = 0 \/ PlugsOK)
          THEN Ok(PopPush(Len(c.d) + 1, Pat(NInst(c.a, c.d))), InstBytes) ELSE Rej
-    [] m = "pop" -> IF Has(0) /\ EqE(E(0), c.a) THEN Ok([g EXCEPT !.stack = SubSeq(S, 1, n - 1)], <<27>>) ELSE Rej
+    [] m = "pop" -> IF Has(0) /\ EqE(E(0), c.a) THEN Ok([g EXCEPT !.stack = SubSeq(S, 1, n - 1), !.rt = SubSeq(g.rt, 1, n - 1)], <<27>>) ELSE Rej
     [] m = "save" -> IF Has(0) /\ EqE(E(0), c.a) THEN Ok([g EXCEPT !.memory = Append(@, c.a)], <<28>>) ELSE Rej
     [] m = "load" -> IF \E k \in 1..Len(g.memory) : EqE(g.memory[k], c.a)
                      THEN Ok(PopPush(0, c.a), <<29, MemIndex(g.memory, c.a)>>) ELSE Rej
     [] m = "publish_axiom" ->
          IF g.phase = "gamma" /\ Has(0) /\ EqE(E(0), Pat(c.a))
-         THEN Ok([g EXCEPT !.memory = Append(@, Prf(c.a))], <<30>>) ELSE Rej
+         THEN Ok(Retain([g EXCEPT !.memory = Append(@, Prf(c.a))]), <<30>>) ELSE Rej
     [] m = "publish_claim" ->
-         IF g.phase = "claim" /\ Has(0) /\ EqE(E(0), Pat(c.a)) THEN Ok(g, <<30>>) ELSE Rej
+         IF g.phase = "claim" /\ Has(0) /\ EqE(E(0), Pat(c.a)) THEN Ok(Retain(g), <<30>>) ELSE Rej
     [] m = "publish_proof" ->
          IF g.phase = "proof" /\ Len(g.claims) > 0 /\ EqT(g.claims[1], c.a) /\ Has(0) /\ EqE(E(0), Prf(c.a))
-         THEN Ok([g EXCEPT !.claims = Tail(@)], <<30>>) ELSE Rej
-    [] m = "into_claim_phase" -> IF g.phase = "gamma" THEN Ok([g EXCEPT !.stack = <<>>, !.phase = "claim"], <<>>) ELSE Rej
-    [] m = "into_proof_phase" -> IF g.phase = "claim" THEN Ok([g EXCEPT !.stack = <<>>, !.phase = "proof"], <<>>) ELSE Rej
+         THEN Ok(Retain([g EXCEPT !.claims = Tail(@)]), <<30>>) ELSE Rej
+    [] m = "into_claim_phase" -> IF g.phase = "gamma" THEN Ok([g EXCEPT !.stack = <<>>, !.rt = <<>>, !.phase = "claim"], <<>>) ELSE Rej
+    [] m = "into_proof_phase" -> IF g.phase = "claim" THEN Ok([g EXCEPT !.stack = <<>>, !.rt = <<>>, !.phase = "proof"], <<>>) ELSE Rej
     [] OTHER -> Rej
 
 \* a and b of these calls are entries ([k, p]) rather than terms
@@ -116,9 +118,12 @@ RenameSym(p, syms) ==
     [] OTHER -> p
 Img(e, syms) == [k |-> e.k, p |-> RenameSym(Expand(e.p), syms)]
 Reverse(s) == [k \in 1..Len(s) |-> s[Len(s) + 1 - k]]
-Rel(g, mst, ret, lastpublish) ==
-  /\ Len(g.stack) = Len(mst.stack) + ret
-  /\ (Len(mst.stack) > 0 /\ ~lastpublish) => Img(g.stack[Len(g.stack)], g.syms) = mst.stack[Len(mst.stack)]
+\* the tracker stack without the retained (already published) slots
+LiveIdx(g) == {k \in 1..Len(g.stack) : ~g.rt[k]}
+RECURSIVE LiveSeq(_, _)
+LiveSeq(g, k) == IF k > Len(g.stack) THEN <<>> ELSE (IF g.rt[k] THEN <<>> ELSE <<Img(g.stack[k], g.syms)>>) \o LiveSeq(g, k + 1)
+Rel(g, mst) ==
+  /\ LiveSeq(g, 1) = mst.stack                    \* the WHOLE live stack, not only its top
   /\ Len(g.memory) = Len(mst.memory)
   /\ \A k \in 1..Len(g.memory) : Img(g.memory[k], g.syms) = mst.memory[k]
   /\ g.phase = "proof" => [k \in 1..Len(g.claims) |-> RenameSym(Expand(g.claims[k]), g.syms)] = Reverse(mst.claims)
